@@ -67,7 +67,8 @@ def check(V, prop, tier, seed):
     for p in aud: proof_problems.append('forbidden construct: ' + p)
 
     # (b) theorems
-    thms = V.theorems_of(prop)
+    thm_pairs = V.theorems_of(prop)
+    thms = [t for _, t in thm_pairs]
     expected = getattr(cfg, 'THEOREMS', None)
     obligations = len(thms)
     discharged = 0
@@ -83,7 +84,7 @@ def check(V, prop, tier, seed):
         if not thms:
             proof_problems.append(f'no property theorems in Properties/{prop}.v')
         else:
-            rc, out, assum = V.print_assumptions(prop, thms, workdir)
+            rc, out, assum = V.print_assumptions(prop, thm_pairs, workdir)
             if rc != 0:
                 proof_problems.append('Print Assumptions run failed: ' + out[-800:])
             for t in thms:
